@@ -202,13 +202,7 @@ func rulesC01(c *Ctx) {
 			R.Check("R3", c.P.FuncKey(swap), "success return <= MARK_SPENT(inputs)", c.P.InstrPos(r), ok,
 				"swap op returns success only after the spent-table insert of "+inputs+" succeeded", why)
 		}
-		// the output signatures become durable (restorable through NUT-09) only after the insert that is the
-		// last line of defence against a duplicate secret succeeded: a refused swap leaves nothing to restore
-		for _, s := range c.roleSites(swap, roleSaveSigs) {
-			ok, why := c.RequireAt(s.Instr, cd)
-			R.Check("R3", c.P.FuncKey(swap), siteDesc(c, s)+" <= MARK_SPENT(inputs)", c.P.InstrPos(s.Instr), ok,
-				"swap op stores the output signatures only after the spent-table insert of "+inputs+" succeeded (a swap refused by the unique key leaves no restorable signatures)", why)
-		}
+		c.ruleSigsAfterSpent("R3")
 	}
 
 	// R4: melt
@@ -546,5 +540,31 @@ func (c *Ctx) c01Pairs(swap, melt *ssa.Function) {
 				"concurrent "+a.name+" and "+b.name+" on the same secret: "+how, why)
 			_ = o
 		}
+	}
+}
+
+// ruleSigsAfterSpent (shared: C01.R3, C15.R6, C16.R6): in the swap op the output signatures become durable
+// (restorable through NUT-09, counted by the issued view) only after the insert that is the last line of
+// defence against a duplicate secret succeeded: a swap refused by the unique key leaves nothing to restore
+// and nothing counted as issued.
+func (c *Ctx) ruleSigsAfterSpent(rule string) {
+	R := c.R
+	swap := c.op(rule, "/v1/swap")
+	if swap == nil {
+		return
+	}
+	inputs := c.inputsOf(rule, swap)
+	if inputs == "" {
+		return
+	}
+	cd := c.condErrNilRole("inputs inserted into spent table", roleMarkSpent, map[int]func(*Ex) bool{1: func(e *Ex) bool { return exprIs(e, inputs) }})
+	sites := c.roleSites(swap, roleSaveSigs)
+	if len(sites) == 0 {
+		R.Unresolved(rule, "signature save in swap op", "no call with role "+roleSaveSigs)
+	}
+	for _, s := range sites {
+		ok, why := c.RequireAt(s.Instr, cd)
+		R.Check(rule, c.P.FuncKey(swap), siteDesc(c, s)+" <= MARK_SPENT(inputs)", c.P.InstrPos(s.Instr), ok,
+			"swap op stores the output signatures only after the spent-table insert of "+inputs+" succeeded (a swap refused by the unique key leaves no restorable signatures)", why)
 	}
 }
